@@ -195,6 +195,10 @@ def dump_error(e):
         except Exception:
             msg = '<unprintable>'
     d['msg'] = scrub(msg)
+    for a in ('lineno', 'colno'):
+        v = getattr(e, a, None)
+        if isinstance(v, int) or v is None:
+            d[a] = v
     eti = getattr(e, 'error_type_info', None)
     if isinstance(eti, dict):
         d['what'] = _plain(eti.get('what'))
